@@ -79,7 +79,7 @@ def sub_document(sg, rng, dg):
 async def explore(tier, seed, m):
     rng = random.Random(seed * 101 + 14)
     stats = {"evaluations": 0, "nontrivial": set(), "problems": [], "disagreements": [], "samples": [], "events": 0, "refused": 0}
-    nschemas, ndocs = (fw.scale(10), 30) if tier == "quick" else (fw.scale(100), 80)
+    nschemas, ndocs = (fw.scale(24), 40) if tier == "quick" else (fw.scale(150), 80)
     t0 = time.time()
     for si in range(nschemas):
         if time.time() - t0 > (100 if tier == "quick" else 1500): break
